@@ -32,13 +32,28 @@ fn main() {
         let path = args.get(3).cloned().unwrap_or_default();
         std::process::exit(props::replay(&prop, &path));
     }
+    util::install_watchdog(mode == "thorough");
     let ctx = util::RunCtx { property: prop.clone(), tier: mode, seed, start: Instant::now() };
-    let code = match util::guard(|| props::run(&ctx)) {
+    let mut code = match util::guard(|| props::run(&ctx)) {
         Ok(c) => c,
         Err(p) => {
             println!("MACHINERY-ERROR harness panic: {}", p);
             2
         }
     };
+    // client-side checks run a second, shallower pass with logging switched off (see util::second_pass)
+    const CLIENT_SIDE: [&str; 10] = ["C05", "C06", "C07", "C08", "C10", "C11", "C12", "C13", "C15", "C17"];
+    if code != 2 && CLIENT_SIDE.contains(&prop.as_str()) && std::env::var("VERIF_LOG").map(|v| v != "off").unwrap_or(true) {
+        util::begin_second_pass();
+        let ctx2 = util::RunCtx { property: prop.clone(), tier: ctx.tier.clone(), seed, start: Instant::now() };
+        let c2 = match util::guard(|| props::run(&ctx2)) {
+            Ok(c) => c,
+            Err(p) => {
+                println!("MACHINERY-ERROR harness panic in the second pass: {}", p);
+                2
+            }
+        };
+        code = if code == 1 || c2 == 1 { 1 } else { code.max(c2) };
+    }
     std::process::exit(code);
 }
